@@ -4211,6 +4211,12 @@ def _check_dependents_are_predicates(
         if not allow_reduction:
             if isinstance(e, (ApplyConcatApply, TreeReduce, ShuffleReduce)):
                 return False
+            if not isinstance(e, Elemwise) and any(
+                x._name == expr._name for x in e.walk()
+            ):
+                # Not row-wise (shift, diff, ffill, rolling, quantile, ...):
+                # the result depends on which rows ``expr`` has kept
+                return False
 
         allowed_expressions.add(e._name)
         stack.extend(e.dependencies())
